@@ -421,6 +421,30 @@ pub fn run(args: &Args) -> i32 {
         check_writer_how(&chunk, how, st, (6 << 30) + (t << 12));
     });
     ctx.stats.merge(s);
+    // names at the 16-bit limit through every name-taking call: refused with an error, or stored and read back faithfully -
+    // never accepted and stored as something else (a directory name gains a '/', which may be the byte too many)
+    {
+        let longs: Vec<String> = vec!["n".repeat(65_534), "n".repeat(65_535), "\u{e9}".repeat(32_767), format!("{}x", "\u{e9}".repeat(32_767)), format!("{}/", "d".repeat(65_534)), "n".repeat(65_536)];
+        let mut st = Stats::default();
+        for (k, name) in longs.iter().enumerate() {
+            for how in 0..HOWS.len() as u8 {
+                st.evals += 1;
+                // does the call accept the name at all?
+                let probe = std::cell::RefCell::new(Stats::default());
+                check_writer_how(std::slice::from_ref(name), how, &mut probe.borrow_mut(), (8 << 30) + ((k as u64) << 8) + how as u64);
+                let p = probe.into_inner();
+                let refused = p.viols.iter().all(|v| v.sig.starts_with("writer/call-failed")) && !p.viols.is_empty();
+                if refused {
+                    st.class(&format!("long-name-refused/{}", HOWS[how as usize]));
+                } else {
+                    // accepted: every other finding stands
+                    st.merge(p);
+                }
+            }
+        }
+        ctx.stats.merge(st);
+        ctx.bound("long_names", json!({"lengths_in_bytes": [65534, 65535, 65534, 65535, 65535, 65536], "calls": HOWS.len(), "oracle": "refused with an error, or stored and read back as the same name"}));
+    }
     ctx.bound("writer_calls", json!(HOWS));
     ctx.stats.sample(json!({"kind":"writer","names":["é☃", "\u{0}/"]}));
     // every scalar value
